@@ -2230,7 +2230,7 @@ class Sim:
             if not link.is_symlink():
                 os.symlink(self.root.name, link)
             os.environ["PWD"] = os.path.normpath(str(link / inv.cwd))
-            self.count("env.cwd_entered_through_symlink")
+            self.count("reach.cwd_entered_through_symlink_with_logical_PWD")
         sys.argv = ["cond"] + inv.argv
         own = op.get("own_stdout") or {}
         # own stdout: a terminal (line buffered) or a pipe (block buffered, as CPython does it); the reader of
